@@ -19,7 +19,7 @@ theorem reads_of_denotes (hM : M.Compatible G) {σ' : Val} {pop : Option Var} {c
     {H : List Name} {w : List Iv} (hs : SShape G ch pa H w) (hH : H ≠ []) (hsub : ∀ x ∈ H, x ∈ G.nodes)
     (hq : ∀ σ, den (M.env G) σ' (.prob pop ch pa) σ = M.Q H σ) (σ : Val) :
     ∃ ρ, Reads ρ σ σ' w (ch ++ pa) := by
-  apply den_ne_zero_reads (M := M) (G := G) σ σ' pop (hs.ch_ne hH) hs.world
+  apply den_ne_zero_reads (M := M) (G := G) σ σ' pop (by simp [hs.ch_ne hH]) hs.world
   rw [hq σ]
   exact ne_of_gt (Scm.Q_pos hM H hsub σ)
 
